@@ -185,6 +185,10 @@ func (spec *Spec) Copy(version string) *Spec {
 // tools that might need to parse patterns without wanted to Compile
 // them.
 func (spec *Spec) ParsePatterns(ctx context.Context) error {
+	// Remember whether the default parser is in charge: it knows
+	// the syntax "none", which is what parsed patterns are in.
+	defaultParser := spec.PatternParser == nil
+
 	if spec.PatternParser == nil {
 		spec.PatternParser = DefaultPatternParser
 	}
@@ -213,6 +217,16 @@ func (spec *Spec) ParsePatterns(ctx context.Context) error {
 			b.Pattern = x
 		}
 	}
+
+	if defaultParser && spec.PatternSyntax != "" {
+		// The patterns have been parsed.  Say so, or else they
+		// would be parsed again by Compile, by the next
+		// Compile, and after the compiled spec has been
+		// serialized and reloaded -- which fails for (or
+		// changes the meaning of) a pattern that is a string.
+		spec.PatternSyntax = "none"
+	}
+
 	return nil
 }
 
